@@ -22,10 +22,21 @@ def run(prop, tier, seed, ctx):
                         "token programs are rendered one statement per token (bind/tifaflow.py)"]
     ctx.cov["rule"] = ("case = one complete token program enumerated by TLC (all programs up to the token bound), analysed "
                        "by real tifa_analysis; non-trivial = contains a branch and a read; distinct = distinct token sequence")
-    for cfg in CFGS[tier]:
-        res = tlc.run("TifaFlow", cfg, workers=8, timeout=2400)
-        tlc.require_ok(res, cfg)
-        ctx.add_tlc(res, "exhaustive " + cfg + " (TIFA layer exact w.r.t. ground truth)")
+    num = 150 if tier == "quick" else 8000
+    for cfg in CFGS[tier] + ["SIM_TifaFlow_deep.cfg"]:
+        if cfg.startswith("SIM_"):
+            # deep random programs (tlc -simulate): up to 16 tokens over three variables, two types, a condition
+            # variable, copies, nesting depth 3; ReadsExact / UnusedExact evaluated by TLC along every program
+            res = tlc.run("TifaFlow", cfg, workers=4, timeout=900, simulate="num=%d" % num, extra=["-depth", "20", "-seed", str(1000 + seed)])
+            tlc.require_ok(res, "simulation " + cfg)
+            ctx.add_tlc(res, "simulation (%d programs grown token by token) %s" % (4 * num, cfg))
+            res.records = list({json.dumps(r["prog"]): r for r in res.records}.values())
+            if len(res.records) < num:
+                raise MachineryError("simulation exported only %d programs" % len(res.records))
+        else:
+            res = tlc.run("TifaFlow", cfg, workers=8, timeout=2400)
+            tlc.require_ok(res, cfg)
+            ctx.add_tlc(res, "exhaustive " + cfg + " (TIFA layer exact w.r.t. ground truth)")
         cases = list(enumerate(res.records))
         mism = shard_map("bind.tifaflow", "replay_chunk", cases)
         ctx.cov["replayed_cases"] += len(cases)
